@@ -10,7 +10,7 @@ use std::os::unix::net::{UnixListener, UnixStream};
 use std::process::Child;
 
 #[cfg(unix)]
-use libc::{close, dup2};
+use libc::{close, dup2, fcntl, FD_CLOEXEC, F_GETFD, F_SETFD};
 use tempfile::TempDir;
 #[cfg(windows)]
 use uds_windows::UnixStream;
@@ -96,6 +96,11 @@ pub fn varlink_exec<S: ?Sized + AsRef<str>>(
                 if fd != 3 {
                     dup2(fd, 3);
                     close(fd);
+                } else {
+                    // the socket already is descriptor 3: nothing was duplicated, so it still
+                    // has the close-on-exec flag std gave it and would be lost on exec
+                    let flags = fcntl(fd, F_GETFD);
+                    fcntl(fd, F_SETFD, flags & !FD_CLOEXEC);
                 }
                 Ok(())
             })
